@@ -89,7 +89,9 @@ type machine struct {
 
 const prelude = `func mut(p, i, v) { p[i] = v; p }
 func mutmap(p, k, v) { p[k] = v; p }
-func grow(p, v) { p = p + v; p }`
+func grow(p, v) { p = p + v; p }
+func vmut(..) { v = ..; if len(v) > 0 { v[0] = 100 }; v }
+func tbl(n) { {"cells": [0] * n, "n": n} }`
 
 func newMachine() *machine {
 	m := &machine{s: sess.New(sess.Config{}), model: map[string]val.V{}, excl: map[string]int{}, store: map[string]int{}, inner: map[string]map[int]bool{}, spare: map[int]bool{}, bigRep: map[string]bool{}}
@@ -219,6 +221,9 @@ func (m *machine) extract(name, from string) {
 		m.inner[name] = map[int]bool{}
 		for id := range in {
 			m.inner[name][id] = true
+			if m.spare[id] {
+				m.spare[m.store[name]] = true // it may be that very storage: room after its end (K-C06-2)
+			}
 		}
 	}
 }
@@ -500,6 +505,35 @@ func (m *machine) apply(o Op) (skip bool, err error) {
 			m.spare[m.store[x]] = true // the copy is made by append: may have room after its end (K-C06-2)
 		}
 		return false, m.run(target + " = " + csrc)
+	case "passvar": // x = vmut(y): the array is spread over the variadic parameters; what the callee does to .. stays there
+		if !yok || yv.K != val.Arr || x == y {
+			return true, nil
+		}
+		if big(yv) {
+			m.nt = true
+		}
+		nv := yv.Copy()
+		if len(nv.A) > 0 {
+			nv.A[0] = val.I(100)
+		}
+		m.model[x] = nv
+		m.derive(x, y)
+		if big(nv) {
+			m.spare[m.store[x]] = true
+		}
+		return false, m.run(fmt.Sprintf("%s = vmut(%s)", x, y))
+	case "cachedget": // x = tbl(n).cells: a result that may come from the function-result cache shares nothing with earlier ones
+		n := []int{3, 9, 12}[o.N%3]
+		cells := make([]val.V, n)
+		for i := range cells {
+			cells[i] = val.I(0)
+		}
+		m.model[x] = val.A(cells...)
+		m.fresh(x)
+		if n > 8 {
+			m.nt = true
+		}
+		return false, m.run(fmt.Sprintf("%s = tbl(%d).cells", x, n))
 	case "bareplus": // x + y as a bare expression must not modify anything
 		if !xok || !yok || xv.K != yv.K || (xv.K != val.Arr && xv.K != val.Map) {
 			return true, nil
@@ -643,15 +677,17 @@ func (m *machine) trackRep(o Op) {
 		m.bigRep[x] = m.bigRep[y] || len(xv.M) > 4
 	case "unwrap":
 		m.bigRep[x] = true // unknown: assume the large representation
-	case "setkey", "delkey", "mergemap":
+	case "setkey", "delkey", "mergemap", "setcont":
 		m.bigRep[x] = m.bigRep[x] || len(xv.M) > 4
+	case "emptyplus": // {} + y: built pair by pair, or as a copy of a large y
+		m.bigRep[x] = m.bigRep[y] || len(xv.M) > 4
 	case "bindmap", "wrapmap", "slice", "rest": // rebuilt with the representation its size asks for
 		m.bigRep[x] = len(xv.M) > 4
 	}
 }
 
 var opKinds = []string{"bindarr", "bindarr", "bindmap", "copy", "copy", "copy", "wraparr", "wrapmap", "unwrap", "setidx", "setidx", "setkey", "setkey", "delkey",
-	"appendself", "appendfrom", "mergemap", "emptyplus", "setcont", "setcont", "bareplus", "slice", "rest", "passmut", "passgrow", "loopmut", "elemincr"}
+	"appendself", "appendfrom", "mergemap", "emptyplus", "setcont", "setcont", "passvar", "cachedget", "cachedget", "bareplus", "slice", "rest", "passmut", "passgrow", "loopmut", "elemincr"}
 
 var sizes = []int{0, 1, 3, 4, 5, 7, 8, 9, 10, 12, 20}
 
